@@ -84,6 +84,9 @@ Definition res_eqb (a b : res) : bool :=
 Definition seen_eqb (a b : seen) : bool :=
   match a, b with SeenOld, SeenOld | SeenNew, SeenNew | SeenOther, SeenOther => true | _, _ => false end.
 
+Record hstep := mkStep { hs_script : script; hs_obs : list (oev * bits); hs_end : bits; hs_res : res;
+                         hs_outside : bool; hs_stray : bool }.
+
 (* ---------- cases ---------- *)
 Inductive ccase :=
 (* (a) filepath.Clean / IsAbs / Join(dest, Clean(name)) against the model; dest = "/d/e" *)
@@ -101,6 +104,10 @@ Inductive ccase :=
    than .registry/ and the final artifact changed *)
 | KInstall (cap : N) (s : script) (obs : list (oev * bits)) (bend : bits) (r : res)
            (outside stray : bool)
+(* several installs one after the other on the SAME install directory (uninstalled in between
+   when the previous one succeeded), each with its own script - in particular its own verifier
+   verdict; c0: the cache holds the digest before the first step *)
+| KHistory (cap : N) (c0 : bool) (steps : list hstep)
 (* (d) TrustedVerifier.VerifyIndex: calls one after the other (class of the result and the
    mark in the state file after each), starting with mark m0 and content h0 on record *)
 | KHwmSeq (m0 : Z) (h0 : option nat) (ops : list hop) (obs : list (ores * Z))
@@ -112,6 +119,23 @@ Inductive ccase :=
 (* Install killed at a chaos point or system call: what the final artifact / the manifest look
    like afterwards, whether the manifest lists the artifact, whether the verifier had accepted *)
 | KKill (final manifest : seen) (entry verified : bool).
+
+Definition obs_eqb (a b : list (oev * bits)) : bool :=
+  list_eqb (fun x y => oev_eqb (fst x) (fst y) && bits_eqb (snd x) (snd y)) a b.
+
+(* (agreement, monitor) of a history: every step against the model's step with the cache state
+   the model's history has reached *)
+Fixpoint chk_history (cap : N) (c : bool) (steps : list hstep) : bool * bool :=
+  match steps with
+  | [] => (true, true)
+  | st :: r =>
+      let s := with_cache (hs_script st) c in
+      let '(t, mr) := run cap s in
+      let '(mobs, mbend) := observe bits0 t in
+      let '(a, m) := chk_history cap (c || existsb is_cache_write t) r in
+      (obs_eqb mobs (hs_obs st) && bits_eqb mbend (hs_end st) && res_eqb mr (hs_res st) && a,
+       mon_install s (hs_obs st) (hs_end st) && negb (hs_outside st) && negb (hs_stray st) && m)
+  end.
 
 Definition dest_de : name := [Sl; Ch 100; Sl; Ch 101].
 
@@ -155,6 +179,8 @@ Definition chk (c : ccase) : nat :=
       code (list_eqb (fun a b => oev_eqb (fst a) (fst b) && bits_eqb (snd a) (snd b)) mobs obs
             && bits_eqb mbend bend && res_eqb mr r)
            (mon_install s obs bend && negb outside && negb stray)
+  | KHistory cap c0 steps =>
+      let '(a, m) := chk_history cap c0 steps in code a m
   | KHwmSeq m0 h0 ops obs =>
       code (list_eqb (fun a b => ores_eqb (fst a) (fst b) && Z.eqb (snd a) (snd b))
                      (map (fun x => (ores_of (fst x), st_mark (snd x))) (hrun (mkSt m0 h0) ops)) obs)
